@@ -114,6 +114,17 @@ def _hash_assign_value(n) -> Optional[ast.AST]:
 
 def _resolve_hash_expr(ctx, expr, obj: str):
     """Return (tuple node, object the fields are read from) for `hash((..))` or a helper-method call returning one."""
+    # temporaries (key = (...); hash(key)) are resolved in the function that contains the expression
+    try:
+        from ..astutil import inline as _inl_h, single_defs as _sdf_h
+        mod_ = _style(ctx).module
+        cur_ = expr
+        while cur_ is not None and not isinstance(cur_, (ast.FunctionDef, ast.AsyncFunctionDef)):
+            cur_ = mod_.parent_of.get(cur_)
+        if cur_ is not None:
+            expr = _inl_h(expr, _sdf_h(cur_))
+    except Exception:
+        pass
     t = _hash_tuple(expr)
     if t is not None:
         return t, obj
